@@ -93,6 +93,17 @@ Definition run {R} (m : M R) (ds : list draw) : outcome R :=
   | Mismatch => Mismatch
   end.
 
+(* "for every random seed": over every stream of recorded calls consistent with the random
+   module's contract the operator never raises, and whatever it returns satisfies Q
+   (Mismatch = the stream is not one this code can have produced) *)
+Definition always {R} (m : M R) (Q : R -> Prop) : Prop :=
+  forall ds, Forall draw_ok ds ->
+  match run m ds with Ok r => Q r | Raise _ => False | Mismatch => True end.
+
+(* error branch: the operator can only fail with exception e *)
+Definition only_raises {R} (m : M R) (e : exn) : Prop :=
+  forall ds, Forall draw_ok ds -> run m ds = Raise e \/ run m ds = Mismatch.
+
 (* `for i in idx: s = body(i, s)` *)
 Fixpoint for_each {I S} (idx : list I) (body : I -> S -> M S) (s : S) : M S :=
   match idx with
@@ -108,6 +119,15 @@ Definition qltb (a b : Q) : bool := negb (Qle_bool b a).
 
 Section Generic.
 Context {A : Type}.
+
+(* locus i of the children holds exactly the two parental genes of locus i
+   (None = the individual has no locus i) *)
+Definition kept_at (p1 p2 c1 c2 : list A) (i : nat) : Prop :=
+  nth_error c1 i = nth_error p1 i /\ nth_error c2 i = nth_error p2 i.
+Definition swapped_at (p1 p2 c1 c2 : list A) (i : nat) : Prop :=
+  nth_error c1 i = nth_error p2 i /\ nth_error c2 i = nth_error p1 i.
+Definition locus_ok (p1 p2 c1 c2 : list A) (i : nat) : Prop :=
+  kept_at p1 p2 c1 c2 i \/ swapped_at p1 p2 c1 c2 i.
 
 (* ind1[a:b], ind2[a:b] = ind2[a:b], ind1[a:b]   (b = None: open slice) *)
 Definition swap_slices (ind1 ind2 : list A) (a1 a2 : Z) (b1 b2 : option Z) : list A * list A :=
